@@ -376,8 +376,45 @@ class Engine:
                 return {"list_len": n_full, "head": items}
             return items
         if isinstance(v, VObj):
-            return {"obj": getattr(v.cls, "__name__", str(v.cls)), "ref": ev(v.t).as_long()}
+            out = {"obj": getattr(v.cls, "__name__", str(v.cls)), "ref": ev(v.t).as_long()}
+            depth = getattr(self, "_conc_depth", 0)
+            fields = self.registry.class_fields.get(v.cls)
+            if fields and depth < 3 and not isinstance(v.cls, MapCls):
+                self._conc_depth = depth + 1
+                try:
+                    fv = {}
+                    for fname, ft in fields.items():
+                        try:
+                            fv[fname] = self._conc_field(v, fname, ft, model)
+                        except Exception as e:  # pragma: no cover
+                            fv[fname] = "<%s>" % (str(e)[:60],)
+                    out["fields"] = fv
+                finally:
+                    self._conc_depth = depth
+            return out
         return "<%s>" % type(v).__name__
+
+    def _conc_field(self, obj, fname, ft, model):
+        """Entry-state value of a heap field in the model."""
+        ev = lambda t: model.eval(t, model_completion=True)
+        heap0 = self.heap0 if self.heap0 is not None else self.heap
+
+        def arr(key, sort):
+            a = heap0.get(key)
+            if a is None:
+                a = self.heap_init.get(key)
+            if a is None:
+                a = z3.Array(self.fresh_name("H." + key), z3.IntSort(), sort)
+            return a
+        if isinstance(ft, TList):
+            n = ev(z3.Select(arr(fname + "#len", z3.IntSort()), obj.t)).as_long()
+            items = []
+            for i in range(max(0, min(n, 16))):
+                leaves = [z3.Select(z3.Select(arr("%s#%s" % (fname, k), z3.ArraySort(z3.IntSort(), s_)), obj.t), z3.IntVal(i)) for k, s_ in self.leaf_sorts(ft.elem)]
+                items.append(self.concretise(self.from_leaves(leaves, ft.elem), model))
+            return items
+        leaves = [z3.Select(arr("%s#%s" % (fname, k), s_), obj.t) for k, s_ in self.leaf_sorts(ft)]
+        return self.concretise(self.from_leaves(leaves, ft), model)
 
     # ---------------------------------------------------------------- typing / fresh values
     def fresh(self, T_, name):
@@ -1689,6 +1726,8 @@ class Engine:
         if op == "+" and isinstance(a, VTuple) and isinstance(b, VTuple):
             return VTuple(a.items + b.items)
         if op == "+" and isinstance(a, VList) and isinstance(b, VList):
+            if getattr(self.sh, "refute_bound", 0):
+                return self.new_list(self.iter_concrete(a) + self.iter_concrete(b))
             r = self.list_copy(a)
             self.list_extend(r, b)
             return r
